@@ -64,7 +64,11 @@ func genC33(seed uint64) *Plan {
 	n := 1 + r.Intn(6)
 	for k := 0; k < n; k++ {
 		i := r.Intn(len(cfg.Ifaces))
-		pl.Steps = append(pl.Steps, Step{Kind: "is_link", N: i, On: r.Chance(0.5)})
+		if r.Chance(0.25) {
+			pl.Steps = append(pl.Steps, Step{Kind: "is_link", N: i, On: false, Label: "flap"}, Step{Kind: "is_link", N: i, On: true, Label: "flap2"})
+		} else {
+			pl.Steps = append(pl.Steps, Step{Kind: "is_link", N: i, On: r.Chance(0.5)})
+		}
 		if r.Chance(0.7) {
 			pl.Steps = append(pl.Steps, isAdvance(pick(r, []time.Duration{200 * time.Millisecond, time.Second, 4 * time.Second, 15 * time.Second})))
 		}
